@@ -57,7 +57,10 @@ CLAIMS = {
             "same {:?}, != is not ==, equal hash, clone, on every parsed value.", "DESIGN.md §4 C18"),
     "C20": ('Theorems C20_boxing_sound (for every rule list no cycle of the mention graph runs through unboxed rules only: the round cap never '
             'stops the analysis early), C20_boxing_minimal, C20_boxing_invariant, C20_boxing_off, C20_boxing_example; C20_opt_raw_partial (raw '
-            'and optimized translation coincide where the optimizer only added RestoreOnErr), witness C20_refuted_skip (known finding F6). '
+            'and optimized translation coincide where the optimizer only added RestoreOnErr), C20_skip_rewrite / C20_skip_rewrite_on_check / C20_skip_rewrite_fuel / '
+            'C20_skip_spec_unique (the skip-until node the optimizer introduces == (!(t1 | ..) ~ ANY)* on the real parse and check path: same offset = first '
+            'boundary where a terminator matches within the range, same logical stack, never fails or panics; premises repaired skip_until + valid UTF-8, '
+            'both shown necessary), witness C20_refuted_skip (known finding F6). '
             'Ties: V1b (boxed flag of every rule! the real generator emits with box_only_if_needed on/off == Model/Boxing.v, recursion-biased '
             'seeded grammars, + acyclicity of the unboxed graph evaluated on the real flags); token-stream hashes across fresh processes; '
             'parsing-relevant generator output under every representation-only option set == default (gen_dump); V1 for both AST paths; a '
